@@ -70,6 +70,10 @@ func (ex *Executor) endSegment(st *State, fr *Frame, to string) {
 			if debugRows {
 				fmt.Printf("DEBUG row %s: %v\n", r.Name, err)
 			}
+			if strings.HasPrefix(err.Error(), "anchor-moved") {
+				ex.errf("anchor-missing %s: contract row %s: %v", ex.unitKey, r.Name, err)
+				continue
+			}
 			if strings.Contains(err.Error(), "unknown identifier") {
 				// the row talks about a variable that does not exist on this path (e.g. the loop variable on the
 				// exit path): it is not a candidate here; a row that is a candidate nowhere is reported as dead.
@@ -267,6 +271,14 @@ func (ex *Executor) matchRow(st *State, fr *Frame, r *Row, evs []*Event) (*Term,
 				return nil, false, err
 			}
 		case "call", "go", "defer":
+			if e.Kind == p.Kind && p.Kind == "go" && !nameMatches(e.Fn, p.Fn) && strings.Contains(p.Fn, "$") && ex.literalGone(p.Fn) {
+				// the row expects a goroutine running a function literal that no longer exists, and a goroutine IS
+				// started at this point: with a function that has no contract (the literal became a named function), or
+				// with another literal of the same function (the literals were renumbered). The row lost its anchor.
+				if ex.S.Funcs[e.Fn] == nil || literalParent(e.Fn) == literalParent(funcKeyOf(ex, p.Fn, e.Fn)) {
+					return nil, false, fmt.Errorf("anchor-moved: the function literal %s does not exist any more (the goroutine now runs %s)", p.Fn, e.Fn)
+				}
+			}
 			if e.Kind != p.Kind || !nameMatches(e.Fn, p.Fn) {
 				return nil, false, nil
 			}
@@ -282,6 +294,20 @@ func (ex *Executor) matchRow(st *State, fr *Frame, r *Row, evs []*Event) (*Term,
 					for i, n := range e.ArgNames {
 						if n == nm {
 							k = i
+						}
+					}
+					if k < 0 {
+						// the captured variable was a receiver or parameter that has been renamed since
+						if cf := ex.P.Funcs[e.Fn]; cf != nil {
+							if nn := ex.renamedParam(cf, nm); nn != "" {
+								for i, n := range e.ArgNames {
+									if n == nn {
+										k = i
+									}
+								}
+							} else if !hasSourceName(cf, nm) && !hasSourceName(fr.fn, nm) {
+								return nil, false, fmt.Errorf("unknown identifier %q", nm) // renamed local: the row lost its anchor
+							}
 						}
 					}
 					if k < 0 || k >= len(e.Args) {
@@ -421,5 +447,33 @@ func hasSourceName(fn *ssa.Function, name string) bool {
 			}
 		}
 	}
-	return name == "rangeindex"
+	return false
+}
+
+// literalGone: no function of the program is named by the function-literal pattern pat ("F$1", "(*T).M$2")
+func (ex *Executor) literalGone(pat string) bool {
+	for k := range ex.P.Funcs {
+		if nameMatches(k, pat) {
+			return false
+		}
+	}
+	return true
+}
+
+// literalParent: "pkg.F$2$1" -> "pkg.F"
+func literalParent(key string) string {
+	if i := strings.Index(key, "$"); i >= 0 {
+		return key[:i]
+	}
+	return key
+}
+
+// funcKeyOf: the pattern pat qualified like the key `like` (patterns may omit the package)
+func funcKeyOf(ex *Executor, pat, like string) string {
+	lp := literalParent(like)
+	pp := literalParent(pat)
+	if nameMatches(lp, pp) {
+		return lp + pat[len(pp):]
+	}
+	return pat
 }
